@@ -8,6 +8,8 @@ import GrafeoModel.Driver.Val
 import GrafeoModel.Driver.Exec
 import GrafeoModel.Driver.Lpg
 import GrafeoModel.Driver.Sess
+import GrafeoModel.Driver.Algo
+import GrafeoModel.Driver.Hnsw
 
 /-!
 `gdriver`: reads op lines `<stream> <op> <arg>*` on stdin, writes one line per op:
@@ -45,6 +47,14 @@ def dispatch (st : DState) (line : String) : DState × String :=
       | none => (st, "bad-op")
     else if stream == "exec" then
       match DriverExec.handle args with
+      | some o => (st, o.render)
+      | none => (st, "bad-op")
+    else if stream == "algo" then
+      match DriverAlgo.handle args with
+      | some o => (st, o.render)
+      | none => (st, "bad-op")
+    else if stream == "hnsw" then
+      match DriverHnsw.handle args with
       | some o => (st, o.render)
       | none => (st, "bad-op")
     else if stream == "tx" then
